@@ -221,7 +221,10 @@ func c13Class(c client.Condition) string {
 	return c.ValueType + c.Operator
 }
 
-func c13PointsBody(t *testing.T, nBatches int, twoPoint bool) mc.Body {
+// storedFlags: the rule and its conditions start with every combination of stored `active` flags (a rule
+// client restarted after its configuration changed), and the rule without conditions is included.
+func c13PointsBody(t *testing.T, nBatches int, twoPoint bool, storedFlags ...bool) mc.Body {
+	flags := len(storedFlags) > 0 && storedFlags[0]
 	conds := c13PointConds()
 	// rule configurations: every single condition; pairs over a reduced set
 	type cfg struct{ idx []int }
@@ -239,6 +242,9 @@ func c13PointsBody(t *testing.T, nBatches int, twoPoint bool) mc.Body {
 		for _, b := range red {
 			cfgs = append(cfgs, cfg{[]int{a, b}})
 		}
+	}
+	if flags {
+		cfgs = append(cfgs, cfg{nil})
 	}
 	// point alphabet
 	var pts []struct {
@@ -273,10 +279,19 @@ func c13PointsBody(t *testing.T, nBatches int, twoPoint bool) mc.Body {
 		}
 		var out mc.Outcome
 		leak := bubble(t, func() {
-			g := c13Start(c13Rule(cs))
+			rule := c13Rule(cs)
 			condActive := make([]bool, len(cs))
 			ruleActive := false
-			x.Logf("rule: %s", strings.Join(names, " AND "))
+			if flags {
+				ruleActive = x.Choose(2, "stored rule flag") == 1
+				rule.Active = ruleActive
+				for i := range condActive {
+					condActive[i] = x.Choose(2, "stored condition flag") == 1
+					rule.Conditions[i].Active = condActive[i]
+				}
+			}
+			g := c13Start(rule)
+			x.Logf("rule: %s (stored flags: rule %v, conditions %v)", strings.Join(names, " AND "), ruleActive, condActive)
 			for b := 0; b < nBatches; b++ {
 				k := x.Choose(len(pts), "point")
 				batch := data.Points{pts[k].p}
@@ -314,7 +329,10 @@ func c13PointsBody(t *testing.T, nBatches int, twoPoint bool) mc.Body {
 				// (and dropped if that restates the state before the batch)
 				got, want := sortedPubs(c13Settle(g.pubs, prevCond)), sortedPubs(exp)
 				if strings.Join(got, "\n") != strings.Join(want, "\n") {
-					cls := c13Class(cs[0])
+					cls := "no-conditions"
+					if len(cs) > 0 {
+						cls = c13Class(cs[0])
+					}
 					if len(cs) > 1 {
 						cls += "+" + c13Class(cs[1])
 					}
@@ -450,6 +468,9 @@ func TestC13(t *testing.T) {
 		nb2 := 1 // (two batches of up to two points would be 17 M sequences per rule configuration)
 		r.Explore(mc.Config{Name: fmt.Sprintf("point-conditions-two-point-batches-b%d", nb2), Serial: true, SplitDepth: 2,
 			Rule: fmt.Sprintf("same rule configurations x %d batch(es) of 1 or 2 points from one node (all ordered pairs of the 64-point alphabet): the latest matching point of a batch decides, whatever the earlier ones did", nb2)}, c13PointsBody(t, nb2, true))
+		r.Explore(mc.Config{Name: "point-conditions-stored-flags-b1", Serial: true, SplitDepth: 2,
+			Rule: "same rule configurations plus the rule without conditions, started with every combination of stored `active` flags of the rule and of each condition (a rule client restarted after its configuration changed: the stored rule flag may disagree with the conditions) x one single-point batch: after the batch the rule is active exactly when all conditions are, and the action list ran iff the rule's state changed"},
+			c13PointsBody(t, 1, false, true))
 		r.Explore(mc.Config{Name: fmt.Sprintf("schedule-conditions-s%d", steps), Serial: true, SplitDepth: 3,
 			Rule: fmt.Sprintf("6 schedule windows around the (virtual) clock start 2000-01-01T00:00:00Z incl. wrap over midnight and start=end, alone or AND a number condition x all sequences of %d operations over {advance 9 s, 10 s, 25 s, 60 s, 61 s, point 4, point 6}; after every operation the publications are compared with the interval model evaluated at each 10 s tick", steps)},
 			c13SchedBody(t, steps))
@@ -463,6 +484,7 @@ func init() {
 	bodies["C13/point-conditions-b3"] = func(t *testing.T) mc.Body { return c13PointsBody(t, 3, false) }
 	bodies["C13/point-conditions-two-point-batches-b1"] = func(t *testing.T) mc.Body { return c13PointsBody(t, 1, true) }
 	bodies["C13/point-conditions-two-point-batches-b2"] = func(t *testing.T) mc.Body { return c13PointsBody(t, 2, true) }
+	bodies["C13/point-conditions-stored-flags-b1"] = func(t *testing.T) mc.Body { return c13PointsBody(t, 1, false, true) }
 	bodies["C13/schedule-conditions-s4"] = func(t *testing.T) mc.Body { return c13SchedBody(t, 4) }
 	bodies["C13/schedule-conditions-s6"] = func(t *testing.T) mc.Body { return c13SchedBody(t, 6) }
 }
